@@ -98,7 +98,8 @@ func diffIPTables(a, b tables) string {
 						"iptables differs at %s:%s:RULES:%d:[options: %s]",
 						tName, cName, i, extra)
 				}
-				for k, v := range aPairs {
+				for _, k := range slices.Sorted(maps.Keys(aPairs)) {
+					v := aPairs[k]
 					if v2 := bPairs[k]; v2 != v {
 						return fmt.Sprintf(
 							"iptables differs at %s:%s:RULES:%d:%s:[%s<->%s]",
